@@ -474,6 +474,7 @@ func (f *e1func) runInlined(st *fstate, c *ast.CallExpr, callee *FuncInfo) *inlR
 					}
 					n2.key = ""
 					ns = n2
+					more = append(more, fact("eq", r, op))
 				} else {
 					more = append(more, fact("eq", r, op))
 					if op.K == "nil" {
@@ -520,7 +521,7 @@ func (f *e1func) runInlined(st *fstate, c *ast.CallExpr, callee *FuncInfo) *inlR
 	return res
 }
 
-const e1InlineExits = 12
+const e1InlineExits = 32
 
 // projectLocals: when a helper returns, facts about its own variables are re-expressed through their definitions
 // where possible and dropped otherwise (its variables are out of scope for the caller).
@@ -565,7 +566,7 @@ func (g *e1func) projectLocals(st *fstate) *fstate {
 			n.facts[k] = fc
 			continue
 		}
-		if (fc.S == "def" || fc.S == "orig" || fc.S == "inloop") && len(fc.A) >= 1 && fc.A[0].K == "var" && g.isLocalObj(fc.A[0].Obj) {
+		if (fc.S == "def" || fc.S == "defx" || fc.S == "orig" || fc.S == "inloop") && len(fc.A) >= 1 && fc.A[0].K == "var" && g.isLocalObj(fc.A[0].Obj) {
 			continue
 		}
 		x := expand(fc, 0)
